@@ -117,6 +117,11 @@ def case(g, tier, ci):
                 ops += undo
             if r.random() < 0.3:
                 ops.append({"op": "bp.points", "id": r.choice(["a", "b"])})
+        if ci % 3 == 0:
+            # every marker pair of this case is handed over as a list [t, dur] instead of a tuple (both are accepted)
+            for o in ops:
+                if o["op"] in ("bp.setSegMarker", "bp.setMarker", "bp.appendMarker"):
+                    o["_list"] = True
         return ops + observe("bp", "a", "b")
     sg = SeqGen(g)
     if which == "el":
